@@ -48,15 +48,18 @@ def _run_prescribed_analyses(input_filename):
         else:
             filename = params.pop("filename", base_name+"_"+key+".json")
 
-        # Call
-        try:
+        # Only the functions of the scene are run commands
+        method = getattr(scene, key, None)
+        if not callable(method):
             print()
-            print("Calling method {0}...".format(key), end='')
-            getattr(scene, key)(filename=filename, **params)
-            print("Done")
-        
-        except AttributeError:
             print("{0} is not recognized as a valid run command. Skipping...".format(key))
+            continue
+
+        # Call
+        print()
+        print("Calling method {0}...".format(key), end='')
+        method(filename=filename, **params)
+        print("Done")
 
     print("\nCompleted prescribed analyses.")
 
